@@ -154,7 +154,7 @@ func aacEnum(v uint8) string {
 // one frame of the independent writer (Lean Spec.Adts.Frame.write through the oracle).
 type specFrame struct {
 	id, pa, prof, sfi, priv, ch, orig, home, cb, cs, bf, crc int
-	raw                                                    string // byte field (hex or p:len:seed)
+	raw                                                      string // byte field (hex or p:len:seed)
 }
 
 func (f specFrame) args() []string {
@@ -174,8 +174,10 @@ func (f specFrame) hdrLen() int {
 }
 
 // what a decoder must report for a spec frame with an acceptable header.
-func (f specFrame) accepted() bool { return f.prof <= 2 && f.sfi >= 1 && f.sfi <= 12 && f.ch >= 1 && f.ch <= 7 }
-func (f specFrame) cfg() aacCfg    { return aacCfg{uint8(f.prof + 1), uint8(f.sfi), uint8(f.ch)} }
+func (f specFrame) accepted() bool {
+	return f.prof <= 2 && f.sfi >= 1 && f.sfi <= 12 && f.ch >= 1 && f.ch <= 7
+}
+func (f specFrame) cfg() aacCfg { return aacCfg{uint8(f.prof + 1), uint8(f.sfi), uint8(f.ch)} }
 
 func randCare(r *h.Rand, f *specFrame) {
 	f.priv, f.orig, f.home, f.cb, f.cs = r.Intn(2), r.Intn(2), r.Intn(2), r.Intn(2), r.Intn(2)
